@@ -21,6 +21,7 @@ func checkC20(c *Ctx) {
 	c20RestructureCrash(c)
 	c20ConcurrentUnpair(c)
 	c20ListingDuringRemoval(c)
+	c20ForeignStorage(c)
 	c18RelativePath(c)
 	c20HashPrecision(c)
 	c.SetRule("streams: pin (ValidatePin on structured + random strings; non-trivial = 8 bytes long or a trivial code), " +
